@@ -126,6 +126,14 @@ CHECKS = {
         "exhaustive": {"quick": False, "thorough": False},
         "trusted_base": ["positional header predicate in harness/chk-snap/src/c08.rs", "reference decoder/checksum in harness/refscion/src/wire.rs", "AddressSanitizer for the unchecked view accessors"],
     },
+    "C09": {
+        "engines": [
+            eng("native-release", "chk-snap", NATIVE_REL, params={"all": {"scale": 2}}),
+            eng("native-debugassert", "chk-snap", NATIVE_CHK, params={"all": {"scale": 1}}, tiers=["thorough"]),
+        ],
+        "exhaustive": {"quick": True, "thorough": True},
+        "trusted_base": ["reference model of the authorisation database in harness/chk-snap/src/c09.rs", "ana-gotatun WireGuard clients"],
+    },
 }
 
 LEVEL = {p: "exploration" for p in CHECKS}
